@@ -491,6 +491,15 @@ class IPAddr6 (_AddrBase):
         raise RuntimeError("Bad address format " + str(addr))
       if len(segs) < 3 or len(segs) > 8:
         raise RuntimeError("Bad address format " + str(addr))
+      if '::' not in addr:
+        # Without a dropped section, there must be exactly eight chunks
+        if len(segs) != 8 or '' in segs:
+          raise RuntimeError("Bad address format " + str(addr))
+      elif (':::' in addr
+            or (addr.startswith(':') and not addr.startswith('::'))
+            or (addr.endswith(':') and not addr.endswith('::'))):
+        # An empty chunk is only legal as part of the one '::'
+        raise RuntimeError("Bad address format " + str(addr))
 
       # Parse the two "sides" of the address (left and right of the optional
       # dropped section)
@@ -503,6 +512,8 @@ class IPAddr6 (_AddrBase):
             #  raise RuntimeError("Bad address format " + str(addr))
           side = 1
           continue
+        if len(s) > 4 or not all(c in '0123456789abcdefABCDEF' for c in s):
+          raise RuntimeError("Bad address format " + str(addr))
         s = int(s,16)
         if s < 0 or s > 0xffff:
           # Each chunk must be at most 16 bits!
